@@ -113,7 +113,9 @@ def predef_table():
 
 
 TENS = ['dotJb0', 'dotJTb0', 'dotJb1', 'trJ', 'detJ', 'invJ01', 'invJT01', 'minor01', 'minor10', 'outer01', 'outer10',
-        'JJ01', 'JTJ01', 'JJT01', 'cross0', 'cross1']
+        'JJ01', 'JTJ01', 'JJT01', 'cross0', 'cross1',
+        # scalar (op) tensor in both operand orders, the un-indexed tensor result kept in a let-variable
+        'let_s-J', 'let_J-s', 'let_s/J', 'let_J/s', 'let_s*J', 'let_s+J', 's-J01', 'J-s01']
 
 
 def tens_names(dim):
@@ -131,6 +133,10 @@ def tens_factor(V, name, dim):
         'outer01': lambda: outer(bv(), J[:, 0])[0, 1], 'outer10': lambda: outer(bv(), J[:, 0])[1, 0],
         'JJ01': lambda: dot(J, J)[0, 1], 'JTJ01': lambda: dot(J.T, J)[0, 1], 'JJT01': lambda: dot(J, J.T)[0, 1],
         'cross0': lambda: cross(bv(), J[:, 0])[0], 'cross1': lambda: cross(bv(), J[:, 0])[1],
+        'let_s-J': lambda: V.let('tb', 1.5 - J)[0, 1], 'let_J-s': lambda: V.let('tb', J - 1.5)[0, 1],
+        'let_s/J': lambda: V.let('tb', 1.5 / (J + 3.0))[0, 1], 'let_J/s': lambda: V.let('tb', (J + 3.0) / 1.5)[0, 1],
+        'let_s*J': lambda: V.let('tb', 1.5 * J)[0, 1], 'let_s+J': lambda: V.let('tb', 1.5 + J)[0, 1],
+        's-J01': lambda: (1.5 - J)[0, 1], 'J-s01': lambda: (J - 1.5)[0, 1],
     }[name]()
 
 
